@@ -14,7 +14,7 @@ __all__ = ['call_name', 'call_recv', 'calls_in', 'bind_args', 'targets_of',
            'attr_chain', 'const_value', 'contains_call', 'find_calls',
            'mentions', 'stmt_is_raise', 'first_arg', 'kwarg', 'is_name',
            'is_attr', 'enclosing', 'parents_map', 'dominating_tests',
-           'strip_await']
+           'strip_await', 'eval_static', 'eval_return']
 
 _cfg_cache: dict[int, CFG] = {}
 
@@ -384,3 +384,87 @@ def dominating_tests(cfg: CFG, n: Node, labels=ALL) \
                         cfg.controlled_by(n, t, br, labels):
                     out.append((t, br))
     return out
+
+
+def eval_static(e: ast.AST, env: dict):
+    """Evaluate a side-effect-free expression over a finite environment
+    (text of a sub-expression -> value).  Supports constants, names/attributes
+    found in ``env``, ==, !=, in, not in, is (not) None, and/or/not, tuples.
+    Returns the value, or raises ValueError when outside this fragment.  This
+    is constant folding over a table, not execution of repository code."""
+    t = txt(e)
+    if t in env:
+        return env[t]
+    ok, v = const_value(e)
+    if ok:
+        return v
+    if isinstance(e, ast.BoolOp):
+        if isinstance(e.op, ast.And):
+            r = True
+            for x in e.values:
+                r = eval_static(x, env)
+                if not r:
+                    return r
+            return r
+        r = False
+        for x in e.values:
+            r = eval_static(x, env)
+            if r:
+                return r
+        return r
+    if isinstance(e, ast.UnaryOp) and isinstance(e.op, ast.Not):
+        return not eval_static(e.operand, env)
+    if isinstance(e, ast.Compare) and len(e.ops) == 1:
+        a = eval_static(e.left, env)
+        b = eval_static(e.comparators[0], env)
+        op = e.ops[0]
+        if isinstance(op, ast.Eq):
+            return a == b
+        if isinstance(op, ast.NotEq):
+            return a != b
+        if isinstance(op, ast.In):
+            return a in b
+        if isinstance(op, ast.NotIn):
+            return a not in b
+        if isinstance(op, ast.Is):
+            return a is b
+        if isinstance(op, ast.IsNot):
+            return a is not b
+    if isinstance(e, ast.Call) and isinstance(e.func, ast.Name) and \
+            e.func.id == 'bool' and len(e.args) == 1 and not e.keywords:
+        return bool(eval_static(e.args[0], env))
+    if isinstance(e, (ast.Tuple, ast.List, ast.Set)):
+        return tuple(eval_static(x, env) for x in e.elts)
+    if isinstance(e, ast.IfExp):
+        return eval_static(e.body if eval_static(e.test, env) else e.orelse,
+                           env)
+    raise ValueError(f'outside the static fragment: {t}')
+
+
+def eval_return(fn: ast.AST, env: dict):
+    """Result of an if/elif/return chain function over ``env`` (see
+    eval_static)."""
+    def run(stmts):
+        for s in stmts:
+            if isinstance(s, ast.Return):
+                return True, eval_static(s.value, env) \
+                    if s.value is not None else None
+            if isinstance(s, ast.If):
+                br = s.body if eval_static(s.test, env) else s.orelse
+                done, v = run(br)
+                if done:
+                    return True, v
+            elif isinstance(s, ast.Expr) and isinstance(s.value,
+                                                        ast.Constant):
+                continue
+            elif isinstance(s, ast.Assign) and len(s.targets) == 1 and \
+                    isinstance(s.targets[0], ast.Name):
+                env[s.targets[0].id] = eval_static(s.value, env)
+            else:
+                raise ValueError(f'outside the static fragment: '
+                                 f'{txt(s)[:40]}')
+        return False, None
+    done, v = run(fn.body)
+    if not done:
+        return None
+    return v
